@@ -135,6 +135,56 @@ func (p *SyncPipeline) Process(line []byte) ProcResult {
 	return r
 }
 
+// ProcessBatch mirrors the two stages of the agent: the listener goroutine parses a batch of lines (parser and input
+// extractions) into records that stay in flight together, and only then the pipeline worker transforms and serializes
+// them one after the other. Every line buffer is overwritten as soon as it has been parsed, like the reader's buffer.
+func (p *SyncPipeline) ProcessBatch(lines [][]byte) []ProcResult {
+	out := make([]ProcResult, len(lines))
+	recs := make([]*base.LogRecord, len(lines))
+	for i, line := range lines {
+		recs[i] = p.Parser.Parse(line, p.FallbackTS)
+		for j := range line {
+			line[j] = '~'
+		}
+		if recs[i] != nil {
+			out[i].Parsed = true
+			if p.Observe != nil {
+				p.Observe("parsed", recs[i])
+			}
+		}
+	}
+	for i, record := range recs {
+		if record == nil {
+			continue
+		}
+		r := &out[i]
+		icounter := p.ProcCount.SelectMetricKeySet(record)
+		if bsupport.RunTransforms(record, p.Transforms) == base.DROP {
+			icounter.CountRecordDrop(record)
+			p.Allocator.Release(record)
+			continue
+		}
+		icounter.CountRecordPass(record)
+		r.Passed = true
+		if p.Observe != nil {
+			p.Observe("transformed", record)
+		}
+		for k, ser := range p.Serializers {
+			stream := ser.SerializeRecord(record)
+			p.Allocator.Release(record)
+			p.ProcCount.CountStream(k, stream)
+			r.Streams = append(r.Streams, append([]byte(nil), stream...))
+			if k < len(p.ChunkMakers) {
+				if ch := p.ChunkMakers[k].WriteStream(stream); ch != nil {
+					p.ProcCount.CountChunk(k, ch)
+					p.Chunks[k] = append(p.Chunks[k], ch)
+				}
+			}
+		}
+	}
+	return out
+}
+
 // Flush flushes the chunk makers and the counters.
 func (p *SyncPipeline) Flush() {
 	for i, cm := range p.ChunkMakers {
